@@ -244,11 +244,42 @@ def limit_exits(ctx, s, fn, filt):
                     drv = (b, info)
         ranged = drv is not None and (drv[1]["callee"] or "").startswith("heed::iterator::range::")
         sp = fn.blocks[e.src]["term"]["sp"]
+        # what is counted: a per-range counter (reset before this loop) or, for a single-range plan, the result set
+        nested = any(H2 != inner and body < b2 for H2, b2 in loops.items())
+        cnt_ok = True
+        why_cnt = ""
+        sides = [D[2], D[3]] if D[0] == "bin" else []
+        for side in sides:
+            if contains_value(side, is_limit):
+                continue
+            if contains_value(side, lambda x: x[0] == "call" and x[1].rsplit("::", 1)[-1] == "len" and "btree" in x[1]):
+                if nested:
+                    cnt_ok = False
+                    why_cnt = "the exit counts the whole result set although several ranges are scanned: events found in other ranges cut this one short"
+            for ph in find_values(side, lambda x: x[0] == "phi"):
+                if ph[1] == inner:
+                    # value on entry to the loop must be the constant 0 (reset per range)
+                    for ie in cfg.in_edges[inner]:
+                        if ie.src not in body:
+                            st0 = an.out_state.get(ie.src)
+                            v0 = an.read(st0, ph[2]) if st0 is not None else None
+                            if v0 is not None and not (v0[0] == "const" and v0[1] == 0):
+                                cnt_ok = False
+                                why_cnt = "the counter compared with the limit is not reset to 0 for each scanned range"
+                elif ph[1] in loops and ph[1] != inner and nested:
+                    cnt_ok = False
+                    why_cnt = "the counter compared with the limit is carried across ranges"
+        if ranged and not cnt_ok:
+            s.add("S-ORDER", fn, "limit-exit-counts-this-range", "loop@%d" % (sp["l"] // 60), sp, VIOLATION, why_cnt, e.src)
+        elif ranged:
+            s.add("S-ORDER", fn, "limit-exit-counts-this-range", "loop@%d" % (sp["l"] // 60), sp, PROVED,
+                  "the count compared with the limit is local to this range (or the plan scans a single range)", e.src)
         s.add("S-ORDER", fn, "limit-exit-only-on-time-ordered-scan", "loop@%d" % (sp["l"] // 60), sp,
               PROVED if ranged else VIOLATION,
               "the count-based exit leaves a loop over a reverse-time LMDB range (the entries skipped are all older)" if ranged else
               "a count-based exit leaves a loop that is not in time order: the result is the first listed, not the newest", e.src)
     ctx.instances["C05.limit-exits"] = n
+    other_exits(ctx, s, fn, filt)
     # assignments to the moving `since`
     since_locals = [i for i, l in enumerate(fn.locals) if l.get("n") == "since"]
     cnt = 0
@@ -271,6 +302,61 @@ def limit_exits(ctx, s, fn, filt):
               "since is replaced only by an accepted event's created_at that is greater than the current since" if (ok and isct) else
               "since can be lowered or set to something other than an accepted event's time: older matching events are cut off wrongly", b)
     ctx.instances["C05.since-updates"] = cnt
+
+
+def other_exits(ctx, s, fn, filt):
+    """an exit from a range scan that is neither exhaustion, an error, the time cut-off nor the limit is allowed only
+    for a (non-parameterized) replaceable kind, where the store keeps a single event per scanned address"""
+    an = ctx.E.an(fn)
+    cfg = an.cfg
+    loops = cfg.natural_loops()
+    is_limit = lambda x: x[0] == "call" and x[1].endswith("::limit") and x[2] and x[2][0] == filt
+    oks = [n for n, k, v in s.return_kinds(fn) if k == "ok"]
+    n = 0
+    for H, body in sorted(loops.items()):
+        drv = None
+        for b in body:
+            info = an.term.get(b)
+            if info and info["kind"] == "call" and (info["base"] or "").endswith("Iterator::next") and \
+                    (info["callee"] or "").startswith("heed::iterator::range::"):
+                if drv is None or cfg.dominates(b, drv[0]):
+                    drv = (b, info)
+        if drv is None:
+            continue
+        # only the innermost loop of this driver
+        if any(H2 != H and drv[0] in b2 and b2 < body for H2, b2 in loops.items()):
+            continue
+        for e in cfg.edges:
+            if e.src not in body or e.dst in body:
+                continue
+            # error exits: no Ok return reachable
+            reach = s.reach(fn, [e.node])
+            if not any(o in reach for o in oks):
+                continue
+            facts = s.edge_facts(fn, e.node)
+            ec = an.edge_cond.get(e.node)
+            if any(f[0] == "variant" and f[2] == 0 and f[1] == drv[1]["value"] for f in facts):
+                continue        # iterator exhausted
+            if ec is not None and ec[0] == "switch" and contains_value(ec[1], is_limit):
+                continue        # limit exit (judged above)
+            if any((relation(f) or ("",))[0] == "<" and contains_value(relation(f)[1], lambda x: x[0] == "call" and x[1].endswith("::created_at"))
+                   for f in facts):
+                continue        # older than `since`: everything further is older still
+            n += 1
+            good = []
+            for node in an.edge_cond:
+                for f in s.edge_facts(fn, node):
+                    if f[0] == "true" and f[1][0] == "call" and f[1][1].endswith("::is_replaceable"):
+                        good.append(node)
+            # within the loop body: every path from the driver to this exit passes an is_replaceable-true edge
+            sub = s.reach(fn, [drv[0]], avoid=good)
+            ok = e.node not in sub and bool(good)
+            sp = fn.blocks[e.src]["term"]["sp"]
+            s.add("S-DOM", fn, "early-exit-only-for-replaceable-kind", "loop@%d" % (sp["l"] // 60), sp, PROVED if ok else VIOLATION,
+                  "the scan of an (author, kind) range stops after one accepted event only when Kind::is_replaceable holds" if ok else
+                  "a range scan can stop early for a reason other than exhaustion, the time cut-off, the limit or a (non-parameterized) "
+                  "replaceable kind: matching events in the rest of the range are never returned", e.src)
+    ctx.instances["C05.other-scan-exits"] = n
 
 
 def drain(ctx, s, fn):
